@@ -103,17 +103,17 @@ var templateSrc = []struct {
 	{"cl2", "l", "closures-sharing-a-variable", "(let ((x ?i)) (let ((f (lambda (a) (setq x (+ x a)))) (g (lambda (a) (* x a)))) (list (funcall f ?i) (funcall g ?i) (funcall f ?i) (funcall g ?i) x)))", 0},
 	{"cls", "l", "closure-called-under-shadowing-let", "(let ((x ?i)) (let ((f (lambda (a) (+ a x)))) (let ((x ?i+x+f&)) (list (funcall f ?i+x+f&) x))))", 1},
 	{"clw", "l", "closure-assigns-under-shadowing-let", "(let ((x ?i)) (let ((f (lambda (a) (setq x (+ x a))))) (list (let ((x ?i+x+f&)) (list (funcall f ?i+x+f&) x)) x)))", 0},
-	{"cla", "l", "closure-passed-to-function-with-same-parameter-name", "(progn (defun NAME (f x) (funcall f x)) (let ((x ?i)) (NAME (lambda (a) (list a x)) ?i+x)))", 0},
-	{"clu", "i", "closure-returned-from-function", "(progn (defun NAME (n) (lambda (a) (+ a n))) (let ((n ?i)) (funcall (NAME ?i+n) ?i+n)))", 0},
+	{"cla", "l", "closure-passed-to-function-with-same-parameter-name", "(let () (defun NAME (f x) (funcall f x)) (let ((x ?i)) (NAME (lambda (a) (list a x)) ?i+x)))", 0},
+	{"clu", "i", "closure-returned-from-function", "(let () (defun NAME (n) (lambda (a) (+ a n))) (let ((n ?i)) (funcall (NAME ?i+n) ?i+n)))", 0},
 	{"ltf", "r", "let-lambda", "(let ((f (lambda (a) ?i+a*))) ?r+f&)", 2},
 	{"lmc", "r", "lambda-form-call", "((lambda (a b) ?a+a+b* ?r+a+b*) ?i ?i)", 2},
 	{"lmf", "r", "funcall-lambda", "(funcall (lambda (a b) ?r+a+b*) ?i ?i)", 0},
 	{"lms", "r", "funcall-sharp-quote-lambda", "(funcall #'(lambda (a) ?r+a*) ?i)", 0},
-	{"dfc", "r", "defun", "(progn (defun NAME (a b) ?a+a+b* ?r+a+b*) (NAME ?i ?i))", 2},
-	{"dfr", "l", "defun-recursive", "(progn (defun NAME (n) (if (= n 0) (list ?a+n*) (cons ?a+n* (NAME (- n 1))))) (NAME ?c))", 1},
-	{"df2", "l", "defun-called-twice", "(progn (defun NAME (a) ?a+a*) (list (NAME ?i) (NAME ?i)))", 0},
-	{"dfs", "l", "defun-called-through-designators", "(progn (defun NAME (a b) (list a b ?a+a+b*)) (list (funcall 'NAME ?i ?i) (funcall #'NAME ?i ?i) (apply #'NAME ?i (list ?i))))", 0},
-	{"dfv", "l", "defun-returning-values", "(progn (defun NAME (a b) (values a b ?a+a+b*)) (multiple-value-bind (a b c) (NAME ?i ?i) (list a b c)))", 0},
+	{"dfc", "r", "defun", "(let () (defun NAME (a b) ?a+a+b* ?r+a+b*) (NAME ?i ?i))", 2},
+	{"dfr", "l", "defun-recursive", "(let () (defun NAME (n) (if (= n 0) (list ?a+n*) (cons ?a+n* (NAME (- n 1))))) (NAME ?c))", 1},
+	{"df2", "l", "defun-called-twice", "(let () (defun NAME (a) ?a+a*) (list (NAME ?i) (NAME ?i)))", 0},
+	{"dfs", "l", "defun-called-through-designators", "(let () (defun NAME (a b) (list a b ?a+a+b*)) (list (funcall 'NAME ?i ?i) (funcall #'NAME ?i ?i) (apply #'NAME ?i (list ?i))))", 0},
+	{"dfv", "l", "defun-returning-values", "(let () (defun NAME (a b) (values a b ?a+a+b*)) (multiple-value-bind (a b c) (NAME ?i ?i) (list a b c)))", 0},
 	{"dol", "r", "dolist", "(dolist (i ?l ?r+i?) ?a+i?* ?a+i?*)", 1},
 	{"dlr", "l", "dolist-result-form-reads-variable", "(dolist (i ?l (list i ?a+i?)) ?a+i?*)", 0},
 	{"dot", "r", "dotimes", "(dotimes (i ?c ?r+i!) ?a+i!* ?a+i!*)", 2},
